@@ -232,7 +232,59 @@ def check_c03(prop, tier, seed):
                                      'invalid settings) each followed by render->parse and simplify()/simplify() on every value'})
 
 
+def enum_campaign(gen, alpha, maxlen, block, seed, **kw):
+    from .drivers import funcs
+    total = funcs.count_words(alpha, maxlen)
+    ntraces = (total + block - 1) // block
+    camp = campaign.run_campaign(gen, ntraces, seed, block=block, total_inputs=total, per_shard_max=100000, **kw)
+    return camp, total
+
+
+def check_c18(prop, tier, seed):
+    from .drivers import funcs
+    t0 = time.time()
+    design = design_runs(prop, tier)
+    maxlen = 5 if tier == 'thorough' else 4
+    camp, total = enum_campaign('pgs', funcs.CODE_ALPHA, maxlen, 40, seed)
+    s2d = campaign.run_campaign('s2d', 600 if tier == 'thorough' else 60, seed, block=50)
+    return report(prop, tier, seed, t0, merge(camp, s2d), design,
+                  extra_cov={'rule': 'all code lists over %s up to length %d, each as ;-string, list of int and list of str, '
+                                     'with add_erroneous False/True; random settings_to_dict(settings, old) calls' % (funcs.CODE_ALPHA, maxlen),
+                             'inputs_enumerated': total, 'exhaustive': True})
+
+
+def check_c19(prop, tier, seed):
+    from .drivers import funcs
+    t0 = time.time()
+    design = design_runs(prop, tier)
+    maxlen = 6 if tier == 'thorough' else 5
+    camp, total = enum_campaign('pcs', funcs.CS_ALPHA, maxlen, 100, seed)
+    hl = campaign.run_campaign('helper', 1, seed)
+    return report(prop, tier, seed, t0, merge(camp, hl), design,
+                  extra_cov={'rule': 'all strings over {ESC [ 1 ; ? space m H a} up to length %d under 4 flag combinations; '
+                                     'every cursor/erase/scroll helper with boundary arguments' % maxlen,
+                             'inputs_enumerated': total, 'exhaustive': True})
+
+
+def check_c15(prop, tier, seed):
+    from .drivers import funcs
+    t0 = time.time()
+    design = design_runs(prop, tier)
+    thorough = tier == 'thorough'
+    maxlen = 6 if thorough else 4
+    camp, total = enum_campaign('aset', funcs.SET_ALPHA, maxlen, 2000 if thorough else 200, seed)
+    extra = campaign.run_campaign('aset_extra', 1, seed)
+    hist = campaign.run_campaign('history', 3000 if thorough else 300, seed, profile='C01', nops=8, maxlen=6, more=0.4,
+                                 odd=0.3, epilogue=('render8',))
+    return report(prop, tier, seed, t0, merge(camp, extra, hist), design,
+                  extra_cov={'rule': 'all setting texts over {0 1 2 3 5 8 ; space ? : m} up to length %d plus boundary texts and all '
+                                     'codes 0..255, each flag read twice and in both orders; renderings (8 flag sets) of values '
+                                     'with verbatim and invalid settings for the strip/verbatim/conjunction clauses' % maxlen,
+                             'inputs_enumerated': total, 'exhaustive': True})
+
+
 CHECKS = {p: check_history for p in HIST}
+CHECKS.update({'C18': check_c18, 'C19': check_c19, 'C15': check_c15})
 CHECKS.update({'C01': check_c01, 'C02': check_c02, 'C03': check_c03})
 
 
